@@ -4,9 +4,15 @@ package cl
 
 import (
 	"fmt"
+	"sync"
 
 	"github.com/ohler55/slip"
 )
+
+// gensymLock makes reading *gensym-counter* and setting it to the next value
+// one step. Without it two routines calling gensym at the same time read the
+// same value and return the same name.
+var gensymLock sync.Mutex
 
 func init() {
 	slip.Define(
@@ -65,6 +71,8 @@ func (f *Gensym) Call(s *slip.Scope, args slip.List, depth int) slip.Object {
 	if suffix == 0 {
 		var ok bool
 		gsym := slip.Symbol("*gensym-counter*")
+		gensymLock.Lock()
+		defer gensymLock.Unlock()
 		if suffix, ok = s.Get(gsym).(slip.Fixnum); ok && 0 < suffix {
 			s.Set(gsym, suffix+1)
 		} else {
